@@ -265,7 +265,7 @@ def main():
         ks = kernels(args.lmax, args.shift) + [pair_kernel(args.lmax, 1, args.shift), pair_kernel(args.lmax, 2, args.shift)]
     results = []
     for k in ks:
-        if args.only and args.only not in k.get("label", k["fname"]):
+        if args.only and not any(o in k.get("label", k["fname"]) for o in args.only.split(",")):
             continue
         r = run_kernel(k)
         results.append(r)
